@@ -35,7 +35,7 @@ func init() {
 		},
 		Run: run,
 		Floors: func(t string) map[string]int64 {
-			return map[string]int64{"geom.with_empty_member": 1000, "geom.empty_run>=2": 100, "geom.empty_collection": 50, "box.touching": 100, "box.empty_operand": 100, "box.sep_one_axis": 100,
+			return map[string]int64{"geom.with_empty_member": 1000, "geom.empty_run>=2": 100, "geom.empty_collection": 50, "box.touching": 100, "box.empty_operand": 100, "box.sep_one_axis": 100, "box.extreme_extent": 500,
 				"type.Point": 10, "type.MultiPoint": 10, "type.LineString": 10, "type.MultiLineString": 10, "type.Polygon": 10, "type.MultiPolygon": 10, "type.GeometryCollection": 10, "type.*Bounds": 10}
 		},
 	})
@@ -241,15 +241,29 @@ func boxCoord(r *gen.R) float64 {
 	return float64(r.IntRange(-4, 4))
 }
 
+// extreme coordinates: infinite, overflowing and underflowing extents
+var extremes = []float64{math.Inf(-1), math.Inf(1), -1e308, 1e308, -1e-170, 1e-170, 2e-170, -math.MaxFloat64, math.MaxFloat64, math.SmallestNonzeroFloat64, 0, 1, -1}
+
 func randBox(r *gen.R) *geom.Bounds {
 	if r.Chance(0.12) {
 		return geom.NewBounds()
 	}
 	x0, x1, y0, y1 := boxCoord(r), boxCoord(r), boxCoord(r), boxCoord(r)
-	if r.Chance(0.1) {
+	if r.Chance(0.15) {
+		// boxes with extreme extents (the property covers all coordinate values incl. infinities)
+		pick := func() float64 { return extremes[r.Intn(len(extremes))] }
+		x0, x1 = pick(), pick()
+		if r.Bool() {
+			y0, y1 = pick(), pick()
+		}
+		for (x0 == x1 && math.IsInf(x0, 0)) || (y0 == y1 && math.IsInf(y0, 0)) { // no box degenerate at infinity
+			x0, x1, y0, y1 = pick(), pick(), boxCoord(r), boxCoord(r)
+		}
+	}
+	if r.Chance(0.1) && !math.IsInf(x0, 0) {
 		x1 = x0 // degenerate
 	}
-	if r.Chance(0.1) {
+	if r.Chance(0.1) && !math.IsInf(y0, 0) {
 		y1 = y0
 	}
 	return &geom.Bounds{Min: geom.Point{X: math.Min(x0, x1), Y: math.Min(y0, y1)}, Max: geom.Point{X: math.Max(x0, x1), Y: math.Max(y0, y1)}}
@@ -289,6 +303,14 @@ func runBoxes(c *core.Ctx) {
 	detail := map[string]interface{}{"a": bstr(a), "b": bstr(b), "c": bstr(d)}
 	c.Eval()
 	ea, eb := isEmpty(a), isEmpty(b)
+	for _, bx := range []*geom.Bounds{a, b} {
+		for _, v := range []float64{bx.Min.X, bx.Min.Y, bx.Max.X, bx.Max.Y} {
+			if !isEmpty(bx) && (math.IsInf(v, 0) || math.Abs(v) > 1e300 || (v != 0 && math.Abs(v) < 1e-160)) {
+				c.Count("box.extreme_extent")
+				break
+			}
+		}
+	}
 	h := core.NewHasher()
 	gen.HashGeom(h, a)
 	gen.HashGeom(h, b)
@@ -410,7 +432,7 @@ func runBoxes(c *core.Ctx) {
 					return
 				}
 				gb := got.Bounds()
-				if !beq(*gb, want) || math.Abs(got.Area()-w*ht) > 1e-12*w*ht {
+				if !beq(*gb, want) {
 					c.Violate("intersection-value", fmt.Sprintf("%s ∩ %s = %s, common rectangle is %s", bstr(a), bstr(b), bstr(gb), bstr(&want)), detail)
 				}
 			} else if !gotNil {
